@@ -49,6 +49,15 @@ def model : List String → String
       let (s', ta, tb) := KM.Conc.run s (mk 0 a) (mk 0 b) sch
       s!"{stStr ta.status} {stStr tb.status} {digest (s' 0)}"
     | _, _ => "bad-op"
+  | ["triple", fx, ka, kb, kc, sched] =>
+    match parseKind ka, parseKind kb, parseKind kc with
+    | some a, some b, some c =>
+      let p := if fx == "otp" then otpFixture else tokensFixture
+      let s : Store := fun _ => p
+      let sch := sched.toList.map (fun ch => if ch == 'A' then 0 else if ch == 'B' then 1 else 2)
+      let (s', ta, tb, tc) := KM.Conc.run3 s (mk 0 a) (mk 0 b) (mk 0 c) sch
+      s!"{stStr ta.status} {stStr tb.status} {stStr tc.status} {digest (s' 0)}"
+    | _, _, _ => "bad-op"
   | _ => "bad-op"
 
 def handler (mode : String) : Option Handler :=
